@@ -6,13 +6,19 @@ TB = ("Trusted: Coq 8.16.1 kernel + vm_compute (no native_compute); the ast tran
       "testing, not verified). Theorems are closed under the global context unless the evidence lists axioms. ")
 CHECKS = {
  'C08': {
-  'text': "Unbounded theorems (all integers, all fixed-width types from the generated table) that print/read is the "
-          "identity, output lies in the XSD lexical space and every XSD literal is read as its denotation; the Gallina "
-          "codec models are tied to /repo by per-run differential evaluation and the validation functions are "
-          "regenerated from the source text on every run.",
+  'text': "Unbounded theorems that print/read is the identity, output lies in the XSD lexical space and every XSD literal is read "
+          "as its denotation, for integers (all fixed-width types from the generated table, explicit '+' included), "
+          "dateTime/date/time, duration, boolean, base64/hex, Decimal (every finite Decimal; the exact region where str() "
+          "leaves xs:decimal is proved and listed as a finding) and Uuid (against the generated UUID_PATTERN). The "
+          "date/time/duration/uuid regular expressions are regenerated from Python's own parse on every run and proved, for all "
+          "strings, to match exactly as the hand-written scanners the theorems are stated over; codec models are tied to /repo "
+          "by per-run differential evaluation.",
   'design_ref': 'DESIGN.md section 6 (C08)',
-  'note': TB + "Modelled: CPython int()/str(), isoformat, regex matching as transcribed; lxml XMLSchema is the XSD oracle.",
-  'technique': 'Coq proof over Gallina model + generated tables; differential correspondence',
+  'note': TB + "Trusted and sampled each run: the generic regex matcher agrees with Python re on the translated fragment "
+          "(\\d = ASCII digits). Modelled for ASCII: int()/str(), Decimal str()/constructor, uuid.UUID str()/constructor, "
+          "isoformat; lxml XMLSchema is the XSD oracle. Double/Unicode/AnyUri by direct oracle only. Kernel primitives "
+          "PrimFloat/PrimInt63 are used by the exhaustive binary64 fraction sweep.",
+  'technique': 'Coq proof over Gallina models (incl. a generic backtracking regex matcher with proved-sufficient fuel and a sound normal form) + ast/regex translators + token pins; differential correspondence; direct round-trip/lexical oracles',
  },
  'C05': {
   'text': "Theorems, for all attribute sets and all values, that the validate_string/validate_native functions regenerated "
